@@ -119,7 +119,8 @@ func c11Context(w c11Witness) (sig, msg string, steps int) {
 	return "", "", x.steps
 }
 
-var c11Types = []uint8{ref.TBin, ref.TMenu, ref.TTemplate, ref.TStaticLoad, ref.TState, ref.TUserData}
+// ... and two application-defined types above the built-in ones (64, 128): like state and user data they are stored per session
+var c11Types = []uint8{ref.TBin, ref.TMenu, ref.TTemplate, ref.TStaticLoad, ref.TState, ref.TUserData, 64, 128}
 
 func c11Strings(gamma []string, min, max int) []string {
 	var out []string
@@ -145,7 +146,7 @@ func c11Universe(thorough bool) (sessions, keys []string, u []c11Triple) {
 	if thorough {
 		gamma = []string{"a", "b", ".", "_", "@", "P", "1", "/"}
 	}
-	sessions = append(c11Strings(gamma, 0, 2), "\x00", "\xff", "a_nor")
+	sessions = append(c11Strings(gamma, 0, 2), "\x00", "\xff", "a_nor", "a ", " a", "a\n", " ") // ... and ids that differ from "a" / "" only by white space
 	keys = append(c11Strings(gamma, 1, 2), "\x00", "\xff", "a\x00", "a_nor", "a.bin", "a.a", "Pa.a", "@a.a")
 	for _, t := range c11Types {
 		for _, s := range sessions {
